@@ -21,12 +21,19 @@ Local Open Scope N_scope.
 (* ---------------------------------------------------------------- reading a conforming container
    Same number of textures, same order, same names (where stored), same dimensions, and the pixel data of
    each texture is the decoding of that texture's own payload: the result IS the list of the per-texture
-   decodings (decode_all stops at the first texture whose decoding fails, as the readers do). *)
-Theorem C20_read_ctpk : forall m f texs, conforms_ctpk f texs -> read_ctpk m f = decode_all (decode_tex m) texs.
+   decodings (decode_all stops at the first texture whose decoding fails, as the readers do).
+   CTPK and BCH compute the number of payload bytes as `(bpp * w as f32 * h as f32) as usize`; the models carry the
+   binary32 rounding (payload_size32), and the hypothesis [f32_exact t] says that this request equals the true payload
+   size bpp*w*h.  It holds for every payload below 8 MiB and for power-of-two sides of any size (C20_f32_exact_small,
+   C20_f32_exact_pow2) and fails e.g. for a 4097 x 4099 L4 texture (C20_f32_inexact_witness: the reader asks for one byte
+   too many).  CGFX stores the size in the file and TPL computes it in integers: no such hypothesis there. *)
+Theorem C20_read_ctpk : forall m f texs, conforms_ctpk f texs -> Forall f32_exact texs ->
+  read_ctpk m f = decode_all (decode_tex m) texs.
 Proof. exact read_ctpk_correct. Qed.
 Theorem C20_read_tpl : forall m f texs, conforms_tpl f texs -> read_tpl m f = decode_all decode_tpl_tex texs.
 Proof. exact read_tpl_correct. Qed.
-Theorem C20_read_bch : forall m f texs, conforms_bch f texs -> read_bch m f = decode_all (decode_tex m) texs.
+Theorem C20_read_bch : forall m f texs, conforms_bch f texs -> Forall f32_exact texs ->
+  read_bch m f = decode_all (decode_tex m) texs.
 Proof. exact read_bch_correct. Qed.
 Theorem C20_read_cgfx : forall m f texs, conforms_cgfx f texs -> read_cgfx m f = decode_all (decode_tex m) texs.
 Proof. exact read_cgfx_correct. Qed.
@@ -43,15 +50,23 @@ Proof. exact decode_all_supported. Qed.
 Theorem C20_decode_all_supported_tpl : forall ts, Forall supportedtpl ts -> decode_all decode_tpl_tex ts = Ok (map tpl_decoded ts).
 Proof. exact decode_all_tpl_supported. Qed.
 
+(* the f32 payload-size request of ctpk.rs / bch.rs: when it is exact, and that it is not always *)
+Theorem C20_f32_exact_small : forall t, bpp2 (t_fmt t) * t_w t * t_h t < 2 ^ 24 -> f32_exact t.
+Proof. exact f32_exact_small. Qed.
+Theorem C20_f32_exact_pow2 : forall t a b, t_w t = 8 * 2 ^ a -> t_h t = 8 * 2 ^ b -> f32_exact t.
+Proof. exact f32_exact_pow2. Qed.
+Theorem C20_f32_inexact_witness : payload_size 10 4097 4099 = 8396801 /\ payload_size32 10 4097 4099 = 8396802.
+Proof. exact f32_inexact_witness. Qed.
+
 (* hence, in the wording of the property: reading a conforming container of supported textures returns the
    textures in order, [decoded t] = (name of t, width, height, pixels of t's own payload), in both modes *)
-Theorem C20_read_ctpk_supported : forall m f texs, conforms_ctpk f texs -> Forall supported3ds texs ->
+Theorem C20_read_ctpk_supported : forall m f texs, conforms_ctpk f texs -> Forall supported3ds_f32 texs ->
   read_ctpk m f = Ok (map decoded texs).
 Proof. exact read_ctpk_supported. Qed.
 Theorem C20_read_tpl_supported : forall m f texs, conforms_tpl f texs -> Forall supportedtpl texs ->
   read_tpl m f = Ok (map tpl_decoded texs).
 Proof. exact read_tpl_supported. Qed.
-Theorem C20_read_bch_supported : forall m f texs, conforms_bch f texs -> Forall supported3ds texs ->
+Theorem C20_read_bch_supported : forall m f texs, conforms_bch f texs -> Forall supported3ds_f32 texs ->
   read_bch m f = Ok (map decoded texs).
 Proof. exact read_bch_supported. Qed.
 Theorem C20_read_cgfx_supported : forall m f texs, conforms_cgfx f texs -> Forall supported3ds texs ->
@@ -91,13 +106,13 @@ Proof. exact bad_magic_rejected. Qed.
    the file's own tables locate it: *_payload_at) is not empty and does not end before k.
    Hypothesis on the textures: decoding their own payload does not panic (true for every supported texture,
    C20_supported_no_panic; for TPL it holds for every texture, so the theorem has no such hypothesis). *)
-Theorem C20_prefix_ctpk : forall m f texs k, conforms_ctpk f texs ->
+Theorem C20_prefix_ctpk : forall m f texs k, conforms_ctpk f texs -> Forall f32_exact texs ->
   Forall (fun t => no_panic (decode_tex m t)) texs -> k < lenN f ->
   no_panic (read_ctpk m (firstn (N.to_nat k) f)) /\
   (forall i t off, nth_error texs i = Some t -> ctpk_payload_at f (N.of_nat i) off -> cuts k off (t_data t) ->
      is_err (read_ctpk m (firstn (N.to_nat k) f))).
 Proof. exact ctpk_prefix. Qed.
-Theorem C20_prefix_bch : forall m f texs k, conforms_bch f texs ->
+Theorem C20_prefix_bch : forall m f texs k, conforms_bch f texs -> Forall f32_exact texs ->
   Forall (fun t => no_panic (decode_tex m t)) texs -> k < lenN f ->
   no_panic (read_bch m (firstn (N.to_nat k) f)) /\
   (forall i t off, nth_error texs i = Some t -> bch_payload_at f (N.of_nat i) off -> cuts k off (t_data t) ->
@@ -120,12 +135,12 @@ Proof. exact supported_no_panic. Qed.
 
 (* the same for containers of supported textures, in the wording of the property: never a Panic, and an Err
    whenever the cut removes part of a texture payload *)
-Theorem C20_prefix_ctpk_supported : forall m f texs k, conforms_ctpk f texs -> Forall supported3ds texs -> k < lenN f ->
+Theorem C20_prefix_ctpk_supported : forall m f texs k, conforms_ctpk f texs -> Forall supported3ds_f32 texs -> k < lenN f ->
   (forall p, read_ctpk m (firstn (N.to_nat k) f) <> Panic p) /\
   (forall i t off, nth_error texs i = Some t -> ctpk_payload_at f (N.of_nat i) off -> cuts k off (t_data t) ->
      exists e, read_ctpk m (firstn (N.to_nat k) f) = Err e).
 Proof. exact ctpk_prefix_supported. Qed.
-Theorem C20_prefix_bch_supported : forall m f texs k, conforms_bch f texs -> Forall supported3ds texs -> k < lenN f ->
+Theorem C20_prefix_bch_supported : forall m f texs k, conforms_bch f texs -> Forall supported3ds_f32 texs -> k < lenN f ->
   (forall p, read_bch m (firstn (N.to_nat k) f) <> Panic p) /\
   (forall i t off, nth_error texs i = Some t -> bch_payload_at f (N.of_nat i) off -> cuts k off (t_data t) ->
      exists e, read_bch m (firstn (N.to_nat k) f) = Err e).
@@ -221,11 +236,11 @@ Example C20_tpl_example :
 Proof. split; [apply conforms_tplb_sound; vm_compute; reflexivity|]. vm_compute; reflexivity. Qed.
 
 (* the example textures are supported: 8x8 L8 (format 7); a 4x3 CI8 image over a four-colour palette *)
-Example C20_examples_supported : supported3ds ex_ctpk_tex /\ supported3ds ex_bch_tex /\ supportedtpl ex_tpl_tex.
+Example C20_examples_supported : supported3ds_f32 ex_ctpk_tex /\ supported3ds_f32 ex_bch_tex /\ supportedtpl ex_tpl_tex.
 Proof.
   split; [|split].
-  - split; [left; repeat split; reflexivity|]. split; reflexivity.
-  - split; [left; repeat split; reflexivity|]. split; reflexivity.
+  - split; [|reflexivity]. split; [left; repeat split; reflexivity|]. split; reflexivity.
+  - split; [|reflexivity]. split; [left; repeat split; reflexivity|]. split; reflexivity.
   - split; [reflexivity|]. split; [reflexivity|]. repeat constructor.
 Qed.
 
